@@ -5,6 +5,7 @@ import (
 	"encoding/hex"
 	"encoding/json"
 	"fmt"
+	"math"
 	"sort"
 )
 
@@ -80,6 +81,7 @@ type Obs struct {
 	PanicEntry string             // public entry point the monitor called
 	Tag        string             // failure class for known-finding matching
 	Inconcl    string
+	LogHook    func(string) // development aid: receives Logf lines
 }
 
 func NewObs() *Obs {
@@ -92,8 +94,18 @@ func (o *Obs) Decided(n int) { o.decided += n }
 // NonTrivial marks the case as non-trivial by the property's stated rule.
 func (o *Obs) NonTrivial() { o.nontrivial = true }
 
-func (o *Obs) Count(k string, v float64) { o.Counters[k] += v }
+func (o *Obs) Count(k string, v float64) {
+	if !math.IsNaN(v) && !math.IsInf(v, 0) {
+		o.Counters[k] += v
+	}
+}
 func (o *Obs) Max(k string, v float64) {
+	if math.IsNaN(v) {
+		return // JSON cannot carry it; a NaN deviation must be turned into a failure by the monitor
+	}
+	if math.IsInf(v, 0) {
+		v = math.Copysign(1e300, v)
+	}
 	if cur, ok := o.Maxima[k]; !ok || v > cur {
 		o.Maxima[k] = v
 	}
@@ -124,6 +136,9 @@ func (o *Obs) Skip(why string) {
 }
 
 func (o *Obs) Logf(format string, a ...any) {
+	if o.LogHook != nil {
+		o.LogHook(fmt.Sprintf(format, a...))
+	}
 	if o.Verbose {
 		fmt.Printf("    "+format+"\n", a...)
 	}
